@@ -86,12 +86,12 @@ def r2(ctx, prog):
     def is_max_now_target(g, sx):
         if sx['k'] in q.CALL_KINDS and sx.get('callee', '').startswith('std::max'):
             ps = [g.path(a) for a in sx.get('args', [])]
-            return any(p.endswith('target_utc_sec_') for p in ps) and len(ps) == 2
+            return any(p.endswith('_utc_sec_') for p in ps) and len(ps) == 2
         return False
     ok = flows_from(f, calc[0]['args'][0], is_max_now_target)
     # and the other operand of max is the clock value read in this call
     clock = [st for st in f.calls() if 'GetCurrentUtcTime' in st.get('callee', '')]
-    ctx.ob('C20.R2', '%s|start-from-max' % f.name, ok and bool(clock), 'the start of the next computation depends on std::max(<clock now>, target_utc_sec_)', where=f.loc(calc[0]['i']))
+    ctx.ob('C20.R2', '%s|start-from-max' % f.name, ok and bool(clock), 'the start of the next computation depends on std::max(<clock now>, <instant kept by the alarm>)', where=f.loc(calc[0]['i']))
     st_t = [a for a, rhs in q.assigns(f, 'Alarm::target_utc_sec_')]
     en = [st for st in f.calls() if st.get('fn') == 'enable' and 'obj' in st and (f.field_of(st['obj']) or '').endswith('sp_timer_ev_')]
     ctx.ob('C20.R2', '%s|target-stored' % f.name, bool(st_t) and bool(en) and q.must_follow(f, q.pt(f, en[0]), q.pts(f, st_t)),
@@ -285,6 +285,75 @@ def r6(ctx, prog):
         ctx.ob('C20.R6', '%s|day-step' % name, okstep, 'the candidate advances by 86400 s once per rejected day', where=f.loc(steps[0]['i'] if steps else lp['i']))
 
 
+def r8(ctx, prog):
+    ctx.rule('C20.R8', 'A5 the search floor is a fired instant: the field F in std::max(now, F) that starts the search for the next instant only ever holds an instant that '
+             'has already fired — either F is written (non-zero) only in the expiry handlers, from the armed target, before re-arming; or, where F is written when the '
+             'timer is armed, every method that cancels the armed timer without firing (sp_timer_ev_->disable()) also clears F. Otherwise enable() after disable() '
+             'searches strictly after an instant that never fired and skips it', floor=2)
+    f = prog.fn1(AL + '::activeTimer')
+    calc = [st for st in f.calls() if st.get('fn') == 'calculateNextLocalTimeSec']
+    if not calc:
+        raise AnalysisBroken('activeTimer: calculateNextLocalTimeSec call not found')
+    found = []
+    def is_max(g, sx):
+        if sx['k'] in q.CALL_KINDS and sx.get('callee', '').startswith('std::max') and len(sx.get('args', [])) == 2:
+            for a in sx['args']:
+                fq = g.field_of(a)
+                if fq:
+                    found.append(fq)
+            return bool(found)
+        return False
+    if not flows_from(f, calc[0]['args'][0], is_max) or not found:
+        raise AnalysisBroken('activeTimer: the start of the search is not std::max(now, <field>)')
+    F = found[0]
+    short = F.split('::')[-1]
+    fam = [AL] + prog.derived_classes(AL)
+    methods = [g for c in fam for g in prog.methods_of(c)]
+    handlers = [g for g in methods if g.short == 'onTimeExpired']
+    armed = {a['i'] for a, rhs in q.assigns(f, 'Alarm::' + short)}
+    nonzero, zero = [], []
+    for g in methods:
+        for a, rhs in q.assigns(g, 'Alarm::' + short):
+            (zero if (g.s(rhs) or {}).get('cv') == 0 else nonzero).append((g, a, rhs))
+    if not nonzero:
+        raise AnalysisBroken('no assignment of an instant to %s found' % short)
+    outside = [(g, a) for g, a, rhs in nonzero if g not in handlers]
+    if not outside:
+        # F is written at fire time only: each handler records the armed target before it re-arms / calls the user
+        armed_fields = set()
+        for st in f.stmts:
+            if st and st['k'] == 'BinaryOperator' and st.get('op') == '=' and f.field_of(st['ch'][0]):
+                armed_fields.add(f.field_of(st['ch'][0]))
+        for h in handlers:
+            mine = [(a, rhs) for g, a, rhs in nonzero if g is h]
+            acts = [c for c in h.calls() if c.get('fn') == 'activeTimer'] + q.invokes(h, 'cb_')
+            ok = bool(mine) and all(h.field_of(rhs) in armed_fields for a, rhs in mine) and \
+                all(any(h.cfg.dominates(q.pt_or_term(h, a), q.pt(h, c)) for a, rhs in mine) for c in acts)
+            ctx.ob('C20.R8', '%s|records-fired' % h.name, ok, '%s takes the armed target at fire time, before re-arming and before the user callback' % short if ok else
+                   'the expiry handler does not record the fired instant in %s (from the armed target) before it re-arms or calls the user: an early wake-up followed by '
+                   'enable()/refresh() from the callback computes the same instant again' % short, where=h.loc(h.body))
+        if len(handlers) < 2:
+            raise AnalysisBroken('expected the base expiry handler and the one-shot override, found %d' % len(handlers))
+        return
+    # F is written while arming: every cancellation must clear it
+    n = 0
+    for g in methods:
+        cancels = [c for c in g.calls() if c.get('fn') == 'disable' and c.get('obj') is not None and (g.field_of(c['obj']) or '').endswith('sp_timer_ev_')]
+        if g in handlers or g is f:
+            continue
+        for c in cancels:
+            n += 1
+            zs = [q.pt_or_term(g, a) for g2, a, rhs in zero if g2 is g]
+            cp = q.pt(g, c)
+            ok = bool(zs) and (q.must_follow(g, cp, zs) or any(g.cfg.dominates(z, cp) for z in zs))
+            ctx.ob('C20.R8', '%s|cancel-clears-floor' % g.name, ok, 'cancelling the armed timer clears %s' % short if ok else
+                   '%s() cancels the armed timer but leaves %s holding the instant that was armed and never fired (it is written in activeTimer at %s); the next enable() '
+                   'starts the search at max(now, %s) and, the result having to be strictly later, skips that instant — an alarm disabled and re-enabled before its time '
+                   'fires a whole period late' % (g.short, short, f.loc(outside[0][1]['i']), short), where=g.loc(c['i']))
+    if n < 2:
+        raise AnalysisBroken('expected >= 2 methods cancelling the armed timer, found %d' % n)
+
+
 def run(ctx):
     prog = extract('ALL' if ctx.tier == 'thorough' else scope_units())
     ctx.guard(r1, ctx, prog)
@@ -294,4 +363,5 @@ def run(ctx):
     ctx.guard(r5, ctx, prog)
     ctx.guard(r6, ctx, prog)
     ctx.guard(r7, ctx, prog)
+    ctx.guard(r8, ctx, prog)
     return prog
